@@ -71,6 +71,21 @@ def gen_cases(tier, seed):
                 cases.append({"monitor": "exactly-once", "run": dict(base, workers=2)})
                 if eng == "mlmc-fixed":
                     cases.append({"monitor": "exactly-once", "run": dict(base, workers=None, paths=12)})
+    # every sampling method of the chain (they do not all draw from the same global generator)
+    methods = ["ALIAS", "TABLE", "INVERSION", "BINARYSEARCHTREE", "HUFFMANNTREE"]
+    for k3, m in enumerate(methods):
+        eng = ["standard", "mlmc-fixed", "mlmc"][(k3 + seed) % 3] if not thorough else None
+        for e in ([eng] if eng else ["standard", "mlmc-fixed", "mlmc"]):
+            base = {"engine": e, "process": "chain", "method": m, "paths": 20, "stochastic_dates": bool((k3 + seed) % 2), "seed": 99 + seed + k3, "rmse": 0.6, "workers": 1}
+            cases.append({"monitor": "repeat-fresh", "run": dict(base)})
+            cases.append({"monitor": "repeat-in-process", "run": dict(base)})
+    # no seed given, single process: nothing to repeat, but every sample still has its own variates (levels and passes included)
+    for e in ("standard", "mlmc-fixed", "mlmc"):
+        for st in (False, True):
+            base = {"engine": e, "process": "chain", "paths": 20, "stochastic_dates": st, "seed": None, "rmse": 0.6, "workers": 1}
+            cases.append({"monitor": "seed-audit", "run": dict(base)})
+            if not st:
+                cases.append({"monitor": "exactly-once", "run": dict(base)})
     # copula chain (standard engine) and copula coupling (multilevel engine): pre-drawn rows of vector-valued increments
     for k2, (eng, st) in enumerate((("standard", False), ("standard", True), ("mlmc-fixed", False), ("mlmc", False)) if thorough else (("standard", False), ("mlmc", False))):
         base = {"engine": eng, "process": "copula", "paths": 24 if eng == "standard" else 16, "stochastic_dates": st, "seed": 777 + seed + k2, "rmse": 0.8}
@@ -110,7 +125,8 @@ def _subprocess_run(spec, events=None):
 
 
 def _tag(run):
-    return f"{run['engine']}-{run['process']}-{'jumptimes' if run['stochastic_dates'] else 'fixeddates'}"
+    return (f"{run['engine']}-{run['process']}{'-' + run['method'] if run.get('method') else ''}-{'jumptimes' if run['stochastic_dates'] else 'fixeddates'}"
+            f"{'-unseeded' if run.get('seed') is None else ''}")
 
 
 def run_case(case, R):
